@@ -35,6 +35,11 @@ func (k msgServer) CreateAccount(goCtx context.Context, msg *types.MsgCreateAcco
 		return nil, err
 	}
 
+	if !pubKeyMatchesAddress(pk, accAddress) {
+		k.Logger(ctx).Error("create account - public key does not match the account address", "address", accAddress.String())
+		return nil, sdkerrors.Wrapf(sdkerrors.ErrInvalidPubKey, "public key does not match account address %s", accAddress.String())
+	}
+
 	err = newAccount.SetPubKey(pk)
 	if err != nil {
 		k.Logger(ctx).Error("new account set pub key error", "error", err.Error())
@@ -45,4 +50,15 @@ func (k msgServer) CreateAccount(goCtx context.Context, msg *types.MsgCreateAcco
 
 	return &types.MsgCreateAccountResponse{AccountNumber: fmt.Sprint(newAccount.GetAccountNumber())}, nil
 
+}
+
+// pubKeyMatchesAddress reports whether pk is a well-formed public key whose address is accAddress.
+func pubKeyMatchesAddress(pk cryptotypes.PubKey, accAddress sdk.AccAddress) (matches bool) {
+	defer func() {
+		// deriving the address of a malformed key (e.g. wrong length) panics
+		if r := recover(); r != nil {
+			matches = false
+		}
+	}()
+	return pk != nil && accAddress.Equals(sdk.AccAddress(pk.Address()))
 }
